@@ -7,7 +7,9 @@ def run(tier):
     quick = tier == "quick"
     chk.assumptions = ["synthetic fragments are built by the harness from one original bundle (payload byte = f(index)) with the "
                        "public constructors; real fragments come from Bundle.Fragment with several limits and from fragmenting fragments",
-                       "the store's completeness test is exercised by the C08 machinery (storage harness), here only bpv7"]
+                       "the store is asked the same question: fragments of one fragmentation (one of them fragmented again) are pushed one at a time in "
+                       "several orders; IsComplete and Load after every push are judged by the same operator. Fragments of different fragmentations "
+                       "that share an offset are not pushed into one store (the store identifies a part by offset and total length)"]
     chk.cov["rule"] = ("Frag.tla: all sequences of <=K intervals over a payload of N cells (every multiset incl. duplicates, overlaps, "
                        "containment, every order); each is replayed as real fragment bundles through IsBundleReassemblable/"
                        "ReassembleFragments after every arrival. Plus: results of reassembling subsets of real Fragment() output "
@@ -33,6 +35,14 @@ def run(tier):
     if st.get("steps_complete", 0) == 0:
         raise InfraError("vacuous: no covering set among the behaviours")
     recs = record_run(chk, tier)
+    # the same question put to the store: fragments pushed one at a time, completeness test and Load after every push
+    srecf = os.path.join(scratch("rec"), "c10-store.ndjson")
+    st4 = run_harness(chk, "store: push fragments, IsComplete, Load", "pkg/storage", ["common/vh.go", "storage/c08.go", "storage/c10.go"], "TestVerifC10Store",
+                      env={"VERIF_REC": srecf, "VERIF_ORDERS": 6 if quick else 40}, timeout=1200)
+    srecs = read_ndjson(srecf)
+    if len(srecs) != st4.get("records") or len(srecs) < 100:
+        raise InfraError("store recorder incomplete: %s" % st4)
+    recs = recs + srecs
     n, nbad = judge(chk, recs, lambda r: r["t"] == "reasm" or (r["t"] == "frag" and r.get("isfrag")), "reassemble")
     chk.cov["traces_validated_against_impl"] = len(hs) + n
     chk.cov["evaluations"] = len(hs) + n
